@@ -4,9 +4,11 @@ mode) and of the real parsigex handler recorded by harness/gate must be a label 
 and must pass the monitor (anything delivered to a subscriber is valid per the rule)."""
 import collections
 import concurrent.futures
+import glob
 import json
 import os
 import re
+import shutil
 
 import vp
 
@@ -34,7 +36,7 @@ def ids(term):
     return [int(a) for a in re.findall(r"(\d+)", term or "")]
 
 
-SPEC_KEYS = ("id", "entrance", "endpoint", "gen", "class", "items", "duty_type", "slot_add", "duty_slot", "boundary", "fault_at", "fault_kind", "prime")
+SPEC_KEYS = ("id", "entrance", "endpoint", "gen", "class", "items", "duty_type", "slot_add", "duty_slot", "boundary", "fault_at", "fault_kind", "prime", "epoch_set", "at_epoch")
 
 
 HIST = {}
@@ -80,13 +82,14 @@ def main():
     R.proofs()
     leaves = 1000 if R.thorough else 5
     elems = 6 if R.thorough else 2
-    rc, out, od = vp.go_harness("gate", env_extra={"VERIF_LEAVES": leaves, "VERIF_ELEMS": elems})
+    rc, out, od = vp.go_harness("gate", outdir=os.path.join(vp.WORK, "gate_%d" % os.getpid()), env_extra={"VERIF_LEAVES": leaves, "VERIF_ELEMS": elems})
     if not os.environ.get("VERIF_REPLAY"):
         HIST.update({"hist_seed": R.seed, "hist_leaves": leaves, "hist_elems": elems})
     if rc != 0:
         R.broke("correspondence:harness gate failed to run", out[-3000:])
         R.finish()
     data = json.load(open(os.path.join(od, "gate_cases.json")))
+    shutil.rmtree(od, ignore_errors=True)   # private output directory: concurrent runs of this check do not clobber each other
     allcs = data["cases"]
     skipped = [c for c in allcs if c.get("skipped")]
     cs = [c for c in allcs if not c.get("skipped")]
@@ -100,7 +103,7 @@ def main():
                           "(NewParSigEx + NewEth2Verifier + NewDutyGater); non-trivial = the request carries an alteration of an otherwise valid submission "
                           "(each reflection-enumerated leaf field with the original signature; the same re-signed with the right share; wrong share; wrong validator; other domain; other fork; zero/random/infinity/foreign-key signature; "
                           "validator unknown to the beacon node / not in the lock / index of another validator; peers: out-of-range/zero/negative/other share index, entry filed under another/unknown public key, "
-                          "duty outside the gater window (epoch offsets, the exact first/last slot of the window, and absolute slots 2^31, 2^53, 2^60, 2^63-1, 2^63, 2^64-1 around validly signed objects), objects whose own signing epoch is the first epoch of a fork of the beacon mock (2048, 50688; attestations with the slot still in the previous fork) signed for the own epoch and with the neighbouring fork's domain, and objects signed with a far-away fork's domain after the same component served that fork, a beacon-node lookup fault of each kind at each lookup position around valid / wrong-share / wrong-domain / altered submissions, a signature that was let in once re-presented over altered content, invalid duty type, bare-signature duty type, duty-type confusion, one bad entry among good ones at each position); distinct by hash of (endpoint, type, class, label)")
+                          "duty outside the gater window (epoch offsets, the exact first/last slot of the window, and absolute slots 2^31, 2^53, 2^60, 2^63-1, 2^63, 2^64-1 around validly signed objects), objects whose own signing epoch is the first epoch of a fork of the beacon mock (2048, 50688; attestations with the slot still in the previous fork) signed for the own epoch and with the neighbouring fork's domain, and objects signed with a far-away fork's domain after the same component served that fork, objects at epochs 0, 1 and at the last epoch before / first epoch of every fork of the mock's schedule signed under the fork version the spec prescribes and under each other fork version of the schedule (compute_domain evaluated in the harness from the fork schedule, never GenesisDomain except for builder registrations), a beacon-node lookup fault of each kind at each lookup position around valid / wrong-share / wrong-domain / altered submissions, a signature that was let in once re-presented over altered content, invalid duty type, bare-signature duty type, duty-type confusion, one bad entry among good ones at each position); distinct by hash of (endpoint, type, class, label)")
     table = collections.defaultdict(lambda: collections.Counter())
     outcome = collections.Counter()
     pre_texts = collections.Counter()
@@ -135,7 +138,9 @@ def main():
     cs = [c for c in cs if c["err"] not in ("EUnknown", "EPanic")]
     shards = list(vp.chunks(cs, 400))
     with concurrent.futures.ThreadPoolExecutor(max_workers=8) as ex:   # shards are independent coqc runs
-        results = list(ex.map(lambda a: vp.coq_eval("C10_%d" % a[0], cases_v(data["lock"], a[1])), enumerate(shards)))
+        results = list(ex.map(lambda a: vp.coq_eval("C10p%d_%d" % (os.getpid(), a[0]), cases_v(data["lock"], a[1])), enumerate(shards)))
+    for f in glob.glob(os.path.join(vp.COQ, "gen", "*cases_C10p%d_*" % os.getpid())) + glob.glob(os.path.join(vp.COQ, "gen", ".cases_C10p%d_*" % os.getpid())):
+        os.remove(f)
     for rc, out in results:
         if rc != 0:
             R.broke("correspondence:cases_C10 does not compile", out[-3000:])
